@@ -1931,7 +1931,16 @@ class PseudoNetCDFFile(PseudoNetCDFSelfReg, object):
                             [f_.variables[varkey][:] for f_ in fs], axis=axisi)
                     else:
                         continue
-                outvar = outf.copyVariable(var, key=varkey, withdata=False)
+                if (
+                    np.ma.is_masked(outvals) and
+                    not isinstance(var[...], np.ma.MaskedArray)
+                ):
+                    # a later file contributes masked cells
+                    fill_value = outvals.fill_value
+                else:
+                    fill_value = None
+                outvar = outf.copyVariable(var, key=varkey, withdata=False,
+                                           fill_value=fill_value)
                 outvar[...] = outvals
 
         return outf
